@@ -53,9 +53,9 @@ var propSets = map[string][]string{
 	"C10": {"r3", "ingest", "setters", "c20"},
 	"C11": {"r3", "more", "ingest", "proof", "c20"},
 	"C12": {"r3", "more", "c12", "c18", "locks", "ingest", "loops", "spawn", "chan"},
-	"C13": {"more", "ingest", "setters", "locks", "registry", "loops", "c17"},
+	"C13": {"r3", "more", "ingest", "setters", "locks", "registry", "loops", "c17"},
 	"C14": {"r3", "more", "ingest", "chan", "sync", "loops", "registry", "shutdown", "timer"},
-	"C15": {"more", "ingest", "registry", "locks", "loops", "sync", "shutdown", "chan"},
+	"C15": {"r3", "more", "ingest", "registry", "locks", "loops", "sync", "shutdown", "chan"},
 	"C16": {"more", "chan", "spawn", "shutdown", "timer", "c12", "registry", "ingest", "locks"},
 	"C17": {"r3", "more", "ingest", "c17"},
 	"C18": {"more", "c18", "ingest"},
@@ -235,6 +235,52 @@ func runChecks(repo, prop, tier, outDir, knownPath, explain, goarch string, star
 		for _, n := range names {
 			rw := rows[n]
 			fmt.Fprintf(f, "| %s | %s | %s | %d | %s |\n", rw.rule, rw.engine, strings.Join(sortedSet(rw.props), " "), rw.n, strings.ReplaceAll(rw.text, "|", "\\|"))
+		}
+		f.Close()
+	}
+	if cf := os.Getenv("LH_COVERAGE"); cf != "" {
+		// debug: per library function: walked by some walker? how many obligation / guard sites fall inside it?
+		type span struct {
+			file       string
+			start, end int
+			id         string
+		}
+		var spans []span
+		for _, fn := range a.P.Funcs {
+			if fn.Syntax() == nil || isSpecTypesPkg(funcPkgPath(fn)) {
+				continue
+			}
+			ps, pe := a.P.Fset.Position(fn.Syntax().Pos()), a.P.Fset.Position(fn.Syntax().End())
+			rel, _ := filepath.Rel(a.P.Repo, ps.Filename)
+			spans = append(spans, span{rel, ps.Line, pe.Line, funcID(fn)})
+		}
+		cnt := map[string]int{}
+		note := func(site string) {
+			parts := strings.Split(site, ":")
+			if len(parts) < 2 {
+				return
+			}
+			ln := atoi(strings.TrimSuffix(parts[1], "(fn)"))
+			best := -1
+			for i, sp := range spans {
+				if sp.file == parts[0] && sp.start <= ln && ln <= sp.end && (best < 0 || sp.end-sp.start < spans[best].end-spans[best].start) {
+					best = i
+				}
+			}
+			if best >= 0 {
+				cnt[spans[best].id]++
+			}
+		}
+		for _, o := range res.Obls {
+			note(o.Site)
+			for _, g := range o.Guards {
+				note(g)
+			}
+		}
+		sort.Slice(spans, func(i, j int) bool { return spans[i].id < spans[j].id })
+		f, _ := os.Create(cf)
+		for _, sp := range spans {
+			fmt.Fprintf(f, "%-5v sites=%-3d lines=%-4d %s\n", visitedAll[sp.id], cnt[sp.id], sp.end-sp.start+1, sp.id)
 		}
 		f.Close()
 	}
